@@ -17,7 +17,7 @@ reach any output).
 import ast
 import re
 
-from mmsa import au, cfg as cfgmod, dataflow, effects
+from mmsa import au, cfg as cfgmod, classfx, dataflow, effects
 from mmsa.core import Undecided, norm, walk_no_nested
 
 MM = 'tbrmatchedmarkets.TBRMatchedMarkets'
@@ -102,6 +102,49 @@ def r1_parameters(repo, rep):
                   norm(e.stmt)[:140], '%s writes into the caller\'s parameter object (%s): a search or query changes the user\'s TBRMMDesignParameters'
                   % (f.name, norm(e.stmt)[:100]), f.loc(e.stmt), nontrivial=bool(hit))
   rep.floor('write sites scanned for parameter stores', n, 40)
+  # interprocedural part: methods of the parameter class that write their own fields (directly or through another
+  # method of the class) must not be invoked on a parameter object outside its construction
+  pcls = repo.cls('tbrmmdesignparameters.TBRMMDesignParameters')
+  writers = {}
+  for m in pcls.all_functions():
+    sn = m.params[0] if m.params else None
+    for e in effects.effects_of(m.node):
+      if e.kind in ('attr-store', 'delete') and isinstance(e.target, ast.Attribute) and norm(e.target.value) == sn:
+        writers.setdefault(m.name, norm(e.stmt)[:60])
+      if e.kind == 'mutator-call' and e.attr in ('setattr', 'delattr', '__setattr__', 'object.__setattr__') and norm(e.target) == sn:
+        writers.setdefault(m.name, norm(e.stmt)[:60])
+  changed = True
+  while changed:
+    changed = False
+    for m in pcls.all_functions():
+      if m.name in writers:
+        continue
+      sn = m.params[0] if m.params else None
+      for call in au.calls_in(m.node):
+        if isinstance(call.func, ast.Attribute) and norm(call.func.value) == sn and call.func.attr in writers:
+          writers[m.name] = 'calls %s' % call.func.attr
+          changed = True
+  rep.extra['parameter_methods_writing_self'] = sorted(writers)
+  n_calls = 0
+  for q in classes:
+    cls = repo.cls(q)
+    funcs = list(cls.all_functions())
+    for f in list(funcs):
+      funcs += list(f.nested.values())
+    for f in funcs:
+      g = cfgmod.CFG(f.node)
+      rd = dataflow.Reaching(g)
+      for node in g.nodes:
+        for ex in classfx._node_exprs(node):
+          for call in au.calls_in(ex):
+            if not (isinstance(call.func, ast.Attribute) and call.func.attr in writers):
+              continue
+            recv = norm(rd.expand(node, call.func.value, aliases=True)[0])
+            if PARAM_PAT.match(recv + '.'):
+              n_calls += 1
+              rep.violation('R1/parameters-read-only', f.qualname, norm(call)[:140],
+                            '%s calls %s.%s(), a method of the parameter class that writes its own fields (%s): the caller\'s TBRMMDesignParameters object is changed by a search or query'
+                            % (f.name, recv, call.func.attr, writers[call.func.attr]), f.loc(call))
 
 
 def r2_queries(repo, rep):
